@@ -127,6 +127,9 @@ def check(case):
         else:
             u2 = case.get('u2')
             q2 = Q(x, u2)
+            if form == 'qq-pickled':
+                import pickle
+                q2 = pickle.loads(pickle.dumps(q2))     # an equal Quantity that did not come straight from the constructor
             if kind == 'cmp' and u2 != u:
                 want = ('raises', 'TypeError')
             else:
@@ -159,6 +162,10 @@ def enumerate_cases(shard, of):
                             i += 1
                             if i % of == shard:
                                 yield {'kind': kind, 'op': op, 'form': 'qq', 'v': enc(v), 'u': u, 'x': enc(x), 'u2': u2}
+                            if kind == 'cmp' and x is CAT[1]:
+                                i += 1
+                                if i % of == shard:
+                                    yield {'kind': kind, 'op': op, 'form': 'qq-pickled', 'v': enc(v), 'u': u, 'x': enc(x), 'u2': u2}
                 if u == 'm' and x is CAT[0]:
                     # "plain numbers" of other types, comparisons only (how Fraction/Decimal dispatch *arithmetic* with a
                     # foreign operand is their own business, see ASSUMPTIONS)
@@ -179,7 +186,7 @@ def enumerate_cases(shard, of):
 
 
 def is_nontrivial(case, want):
-    if want[0] == 'raises' or case.get('form') in ('nq', 'qq', 'self'):
+    if want[0] == 'raises' or case.get('form') in ('nq', 'qq', 'self', 'qq-pickled'):
         return True
     ops = [dec(case['v'])] + ([dec(case['x'])] if 'x' in case else [])
     return any(nontrivial_operand(o) for o in ops)
